@@ -42,6 +42,14 @@ const maxReadBufferSize = 16 * 1024 * 1024 // 16MB
 // DefaultRecvQueueSize is the default capacity for the recv queue channel
 const DefaultRecvQueueSize = 55
 
+// SendQueueSize is the capacity of the send queue channel. It must exceed the
+// largest number of messages a mini-protocol client queues in one go (the
+// chain-sync client pipelines up to MaxPipelineLimit RequestNext messages)
+// by at least one, so that a final Done message always finds room: with a
+// full queue SendMessage blocks until the peer answers, and chain-sync's
+// Stop() used to block there while holding its lifecycle mutex.
+const SendQueueSize = 128
+
 // Protocol implements the base functionality of an Ouroboros mini-protocol
 type Protocol struct {
 	config              ProtocolConfig
@@ -173,7 +181,7 @@ func (p *Protocol) Start() {
 		}
 
 		// Create channels
-		p.sendQueueChan = make(chan outboundMessage, 80)
+		p.sendQueueChan = make(chan outboundMessage, SendQueueSize)
 		p.recvQueueChan = make(chan Message, p.config.RecvQueueSize)
 		p.recvReadyChan = make(chan bool, 1)
 		p.sendReadyChan = make(chan bool, 1)
